@@ -577,3 +577,86 @@ theorem lrun_fifo : ∀ (ops : List LOp) (s : LockRun), s.o.Tidy →
     exact h
 
 end AioslskVerif.Rate
+
+namespace AioslskVerif.Rate
+
+/-! ### Bytes follow grants -/
+
+theorem sum_set_add : ∀ (l : List Nat) (c n : Nat), c < l.length →
+    (l.set c n).sum + l.getD c 0 = l.sum + n
+  | [], c, n, h => by simp at h
+  | x :: l, 0, n, _ => by simp [List.sum_cons]; omega
+  | x :: l, c + 1, n, h => by
+    have ih := sum_set_add l c n (by simpa using h)
+    simp only [List.set_cons_succ, List.sum_cons, List.getD_cons_succ]
+    omega
+
+theorem getD_le_sum : ∀ (l : List Nat) (c : Nat), l.getD c 0 ≤ l.sum
+  | [], c => by simp
+  | x :: l, 0 => by simp [List.sum_cons]
+  | x :: l, c + 1 => by
+    have := getD_le_sum l c
+    simp only [List.getD_cons_succ, List.sum_cons]; omega
+
+/-- one event keeps `moved + outstanding ≤ granted + slack`, and never takes tokens or bytes back -/
+theorem xstep_inv (s : XSt) (e : XEv) :
+    (xstep s e).moved + (xstep s e).holding.sum + s.granted ≤ (xstep s e).granted + s.moved + s.holding.sum ∧
+    s.granted ≤ (xstep s e).granted ∧ s.moved ≤ (xstep s e).moved ∧ (xstep s e).holding.length = s.holding.length := by
+  cases e with
+  | grant c n =>
+    by_cases h : c < s.holding.length
+    · have := sum_set_add s.holding c n h
+      have hx : xstep s (.grant c n) = { s with holding := s.holding.set c n, granted := s.granted + n } := by
+        simp [xstep, h]
+      rw [hx]
+      refine ⟨?_, ?_, ?_, ?_⟩
+      · show s.moved + (s.holding.set c n).sum + s.granted ≤ s.granted + n + s.moved + s.holding.sum
+        omega
+      · show s.granted ≤ s.granted + n
+        omega
+      · exact Nat.le_refl _
+      · show (s.holding.set c n).length = s.holding.length
+        simp
+    · have hx : xstep s (.grant c n) = s := by simp [xstep, h]
+      rw [hx]
+      exact ⟨by omega, Nat.le_refl _, Nat.le_refl _, rfl⟩
+  | move c m =>
+    by_cases h : c < s.holding.length
+    · have := sum_set_add s.holding c 0 h
+      have hm : min m (s.holding.getD c 0) ≤ s.holding.getD c 0 := Nat.min_le_right _ _
+      have hx : xstep s (.move c m) =
+          { s with holding := s.holding.set c 0, moved := s.moved + min m (s.holding.getD c 0) } := by
+        simp [xstep, h]
+      rw [hx]
+      refine ⟨?_, ?_, ?_, ?_⟩
+      · show s.moved + min m (s.holding.getD c 0) + (s.holding.set c 0).sum + s.granted
+            ≤ s.granted + s.moved + s.holding.sum
+        omega
+      · exact Nat.le_refl _
+      · show s.moved ≤ s.moved + min m (s.holding.getD c 0)
+        omega
+      · show (s.holding.set c 0).length = s.holding.length
+        simp
+    · have hx : xstep s (.move c m) = s := by simp [xstep, h]
+      rw [hx]
+      exact ⟨by omega, Nat.le_refl _, Nat.le_refl _, rfl⟩
+
+theorem xrun_inv : ∀ (evs : List XEv) (s : XSt),
+    (xrun s evs).moved + (xrun s evs).holding.sum + s.granted ≤ (xrun s evs).granted + s.moved + s.holding.sum ∧
+    s.granted ≤ (xrun s evs).granted ∧ s.moved ≤ (xrun s evs).moved ∧ (xrun s evs).holding.length = s.holding.length
+  | [], s => ⟨by simp [xrun]; omega, by simp [xrun], by simp [xrun], by simp [xrun]⟩
+  | e :: r, s => by
+    have h1 := xstep_inv s e
+    have h2 := xrun_inv r (xstep s e)
+    have hr : xrun s (e :: r) = xrun (xstep s e) r := by simp [xrun]
+    rw [hr]
+    refine ⟨by omega, by omega, by omega, by omega⟩
+
+theorem sum_le_of_all_le : ∀ (l : List Nat) (g : Nat), (∀ x ∈ l, x ≤ g) → l.sum ≤ l.length * g
+  | [], g, _ => by simp
+  | x :: l, g, h => by
+    have := sum_le_of_all_le l g (fun y hy => h y (by simp [hy]))
+    have hx := h x (by simp)
+    simp only [List.sum_cons, List.length_cons, Nat.add_mul, Nat.one_mul]; omega
+
+end AioslskVerif.Rate
